@@ -177,6 +177,9 @@ func judge(res *vlib.Result, w *world, cfg *config, nm []names) {
 	if cfg.Life != nil {
 		countLifecycle(res, w, cfg)
 	}
+	if cfg.Variant == "inherited" {
+		countInherited(res, w, cfg, nm)
+	}
 	if cfg.Variant == "panics" {
 		res.Count("panics_cases", 1)
 		res.Count("panics_reaching_standalone_caller", w.expectedPanicsStandalone)
@@ -280,6 +283,9 @@ func judgeAttempt(res *vlib.Result, cfg *config, ms *msgState, a *attemptObs, n 
 			origin = "dispatched directly, no Router context"
 		}
 		where += fmt.Sprintf(" [%s, registration %s, %s, foreign context values: %s]", cfg.Variant, cfg.Reg, origin, ctxPlanSig(ms.plan.Ctx))
+		if ms.plan.Inherit != nil && ms.inherited != nil {
+			where += fmt.Sprintf(" [arrived with an inherited context (%s) naming handler %q topic %q subscriber %q]", ms.plan.Inherit.sig(), ms.inherited.Handler, ms.inherited.Topic, ms.inherited.Subscriber)
+		}
 	}
 	res.Events++ // handler invocation
 	res.Count("attempts", 1)
@@ -593,6 +599,7 @@ func describe(res *vlib.Result, w *world, cfg *config) {
 		Metadata map[string]string `json:"metadata"`
 		Handler  int               `json:"handler"`
 		Ctx      []ctxInj          `json:"foreign_ctx_values,omitempty"`
+		Inherit  *inheritPlan      `json:"inherited_context,omitempty"`
 		Attempts []attemptDesc     `json:"attempts"`
 	}
 	var parts []any
@@ -614,12 +621,18 @@ func describe(res *vlib.Result, w *world, cfg *config) {
 		if cfg.Variant == "panics" {
 			parts = append(parts, cfg.TaggedErrs, cfg.Concurrent, cfg.Recoverer)
 		}
+		if cfg.Variant == "inherited" {
+			parts = append(parts, cfg.UpSameRouter, cfg.Concurrent)
+			for _, u := range cfg.Up {
+				parts = append(parts, u.Name == "", u.SubKind, u.WithPublisher)
+			}
+		}
 	}
 	var sample []msgDesc
 	for i, ms := range w.order {
-		md := msgDesc{UUID: ms.plan.UUID, Metadata: ms.plan.Metadata, Handler: ms.plan.Handler, Ctx: ms.plan.Ctx}
+		md := msgDesc{UUID: ms.plan.UUID, Metadata: ms.plan.Metadata, Handler: ms.plan.Handler, Ctx: ms.plan.Ctx, Inherit: ms.plan.Inherit}
 		if cfg.Variant != "" {
-			parts = append(parts, ms.plan.Handler, ms.plan.At, ctxPlanSig(ms.plan.Ctx))
+			parts = append(parts, ms.plan.Handler, ms.plan.At, ctxPlanSig(ms.plan.Ctx), ms.plan.Inherit.sig())
 		}
 		for j, a := range ms.attempts {
 			settled := ""
